@@ -189,6 +189,15 @@ Fixpoint sx_of_recv (a : ioarg) : sx :=
           SL (map sx_of_recv comp)]
   end.
 
+(* Program.GC with aliasLive's visited set written out (a fresh set per queried
+   input, as in program.go) places the gc instructions exactly where the
+   fuel-bounded model the theorems are about places them *)
+Definition gc_visited_agrees (steps gsteps : list instr) : bool :=
+  match gc_visited steps with
+  | Some g => sx_eqb (SL (listing g 0)) (SL (listing gsteps 0))
+  | None => false
+  end.
+
 Definition run_prog (gcf : list instr -> option (list instr)) (inp : sx) : sx :=
   let p := sprog_of_sx (nthx 1 inp) in
   let steps := map instr_of_sx (getL (nthx 5 (nthx 1 inp))) in
@@ -221,7 +230,7 @@ Definition run_prog (gcf : list instr -> option (list instr)) (inp : sx) : sx :=
                      wf_prog of the step list, consts_tabled (the extra hypothesis
                      of the simulation theorem), no_premature_reuse of the gc'd
                      list (2 = not evaluated: more than 4096 wire ids) *)
-                  SL [ofB (wf_prog p steps && outbits_ok p steps); ofB (consts_tabled p steps);
+                  SL [ofB (wf_prog p steps && outbits_ok p steps && gc_visited_agrees steps gsteps); ofB (consts_tabled p steps);
                       if (fold_left N.max (map ct_maxid (ss_trace st)) 0 <=? 4096)%N
                       then ofB (no_premature_reuse p gsteps) else SZ 2]]
           end
